@@ -3,6 +3,9 @@ C05 — property theorems.  (Helper lemmas live in `Lemmas.lean`.)
 -/
 import LimnoriaModel.C05.Lemmas
 import LimnoriaModel.C05.RoundTrip
+import LimnoriaModel.C05.HostmaskLemmas
+import LimnoriaModel.C05.Full
+import LimnoriaModel.C05.WFDec
 namespace C05
 open Py
 
@@ -47,6 +50,25 @@ theorem format_cached (timeOk : Str → Bool) (l : Str) (m : Msg) (str : Str)
   rcases parse_total timeOk l with ⟨m', h'⟩ | h'
   · rw [h'] at h; injection h with _ h2; exact h2.symm
   · rw [h'] at h; cases h
+
+/-- Filling `.nick/.user/.host` never fails: every prefix the `^\\S+!\\S+@\\S+$` regexp accepts can be
+split by `splitHostmask` (true since the `fix:` that splits off the host first; before it
+`a!b@c!d` was a counter-example). -/
+theorem hostFields_total (p : Str) : (hostFields p).isSome = true := hostFields_isSome p
+
+/-- Totality of the whole constructor, including the part after the `try` block. -/
+theorem parseFull_total (timeOk : Str → Bool) (l : Str) :
+    (∃ m n u h, parseFull timeOk l = .ok m (addLF l) n u h) ∨ parseFull timeOk l = .malformed := by
+  unfold parseFull
+  rcases parse_total timeOk l with ⟨m, hm⟩ | hm
+  · rw [hm]
+    have := hostFields_total m.pfx
+    cases hf : hostFields m.pfx with
+    | none => rw [hf] at this; simp at this
+    | some t =>
+      obtain ⟨n, u, h⟩ := t
+      left; exact ⟨m, n, u, h, by simp [hf]⟩
+  · rw [hm]; right; rfl
 
 /-- The second family of facts about the extracted escape table: escaped values never contain the
 tag separators. -/
